@@ -104,21 +104,21 @@ func isPlusFolding(p gen.Program, a, b *run.Outcome) bool {
 var subProgram = vk.Register("program", checkProgram)
 
 func TestPropPrograms(t *testing.T) {
-	vk.Rapid(t, subProgram, vk.N(3000, 9000), func(t *rapid.T) gen.Program {
+	vk.Rapid(t, subProgram, vk.N(3000, 24000), func(t *rapid.T) gen.Program {
 		return gen.Generate(t, gen.Config{MaxStmts: 40, ErrRate: 0.02})
 	})
 }
 
 func TestPropProgramsNoErrors(t *testing.T) {
 	// the same generator without deliberate errors: long successful executions
-	vk.Rapid(t, subProgram, vk.N(1500, 4500), func(t *rapid.T) gen.Program {
+	vk.Rapid(t, subProgram, vk.N(1500, 12000), func(t *rapid.T) gen.Program {
 		return gen.Generate(t, gen.Config{MaxStmts: 60, ErrRate: 0})
 	})
 }
 
 func TestPropProgramsPadded(t *testing.T) {
 	// layouts with large line/column gaps: failure positions must still agree (saturated position-table deltas)
-	vk.Rapid(t, subProgram, vk.N(500, 1000), func(t *rapid.T) gen.Program {
+	vk.Rapid(t, subProgram, vk.N(500, 2500), func(t *rapid.T) gen.Program {
 		p := gen.Generate(t, gen.Config{MaxStmts: 30, ErrRate: 0.04})
 		p.Src = gen.Pad(t, p.Src, vk.N(2000, 20000))
 		p.Features = append(p.Features, "padded")
